@@ -433,8 +433,7 @@ class Table(Vector):
 				cols = list(self._underlying)
 				value._name = self._underlying[col_idx_indexed]._name  # Preserve original name
 				cols[col_idx_indexed] = value
-				object.__setattr__(self, '_underlying', tuple(cols))
-				object.__setattr__(self, '_column_map', self._build_column_map())
+				self._swap_columns(tuple(cols))
 				return
 			
 			# Regular column lookup by name
@@ -456,10 +455,7 @@ class Table(Vector):
 				cols = list(self._underlying)
 				value._name = self._underlying[col_idx]._name  # Preserve original name
 				cols[col_idx] = value
-				object.__setattr__(self, '_underlying', tuple(cols))
-				
-				# Rebuild column map to reflect any structural changes
-				object.__setattr__(self, '_column_map', self._build_column_map())
+				self._swap_columns(tuple(cols))
 				return
 		
 		# Reject arbitrary attribute setting - only allow column updates
@@ -467,6 +463,15 @@ class Table(Vector):
 			f"Cannot set attribute '{attr}' on Table. "
 			f"Column '{attr}' does not exist. Use >>= to add new columns."
 		)
+
+	def _swap_columns(self, new_cols):
+		"""Replace the column tuple, keeping the alias registry and column map in step."""
+		from .alias_tracker import _ALIAS_TRACKER
+		_ALIAS_TRACKER.unregister(self, id(self._underlying))
+		object.__setattr__(self, '_underlying', new_cols)
+		self._invalidate_fp()
+		_ALIAS_TRACKER.register(self, id(new_cols))
+		object.__setattr__(self, '_column_map', self._build_column_map())
 
 	def rename_column(self, old_name, new_name):
 		"""Rename a column (modifies in place, returns self for chaining)"""
